@@ -420,7 +420,9 @@ func c06R4(a *A, r *Roles) {
 		return
 	}
 	// classification predicates: buf[0] == <driver constant>
-	classOf := func(b *ssa.BasicBlock) map[string]bool {
+	var classOfBuf func(b *ssa.BasicBlock, buf ssa.Value) map[string]bool
+	classOf := func(b *ssa.BasicBlock) map[string]bool { return classOfBuf(b, buf) }
+	classOfBuf = func(b *ssa.BasicBlock, buf ssa.Value) map[string]bool {
 		out := map[string]bool{}
 		for _, ce := range dominatingConds(b) {
 			bo, ok := ce.Cond.(*ssa.BinOp)
@@ -448,6 +450,7 @@ func c06R4(a *A, r *Roles) {
 			}
 			// other must be buf[0]
 			isFirst := false
+			other = resolve(other)
 			if u, ok := other.(*ssa.UnOp); ok && u.Op == token.MUL {
 				if ia, ok := u.X.(*ssa.IndexAddr); ok && ia.X == buf {
 					if k, ok := constInt(ia.Index); ok && k == 0 {
@@ -467,19 +470,125 @@ func c06R4(a *A, r *Roles) {
 		}
 		return out
 	}
-	n := 0
+	// a classification helper: an in-package function that is handed the packet and returns the error to report (nil for
+	// an event packet). Its returns are the decoder's exits; the classes that hold at its nil returns hold wherever the
+	// decoder continues on the nil edge of its result.
+	type exit struct {
+		ret *ssa.Return
+		ev  ssa.Value
+		cl  map[string]bool
+	}
+	var exits []exit
+	helperNil := map[ssa.Value]map[string]bool{} // helper call -> classes common to its nil returns
+	helperOf := func(v ssa.Value) (*ssa.Call, *ssa.Function, ssa.Value) {
+		c, ok := resolve(v).(*ssa.Call)
+		if !ok || c.Common().IsInvoke() {
+			return nil, nil, nil
+		}
+		cal := c.Common().StaticCallee()
+		if cal == nil || cal.Pkg != w.Root || cal.Blocks == nil || cal.Signature.Results().Len() != 1 || !typeIs(cal.Signature.Results().At(0).Type(), rootPath, "Error") {
+			return nil, nil, nil
+		}
+		for i, arg := range c.Common().Args {
+			if arg == buf && i < len(cal.Params) {
+				return c, cal, cal.Params[i]
+			}
+		}
+		return nil, nil, nil
+	}
+	instrs(f, func(in ssa.Instruction) {
+		c, ok := in.(*ssa.Call)
+		if !ok {
+			return
+		}
+		hc, cal, pbuf := helperOf(c)
+		if hc == nil {
+			return
+		}
+		a.touch(cal)
+		var common map[string]bool
+		for _, r2 := range returnsOf(cal) {
+			if !isNilConst(r2.Results[0]) {
+				continue
+			}
+			cl := classOfBuf(r2.Block(), pbuf)
+			if common == nil {
+				common = cl
+			} else {
+				for k := range common {
+					if !cl[k] {
+						delete(common, k)
+					}
+				}
+			}
+		}
+		helperNil[hc] = common
+		// HandleErrorPacket inside the helper, on the packet
+		instrs(cal, func(i2 ssa.Instruction) {
+			if c2, ok := i2.(*ssa.Call); ok && c2.Common().IsInvoke() && c2.Common().Method.Name() == "HandleErrorPacket" {
+				hep = c2
+			}
+		})
+	})
+	withHelperNil := func(b *ssa.BasicBlock, cl map[string]bool) map[string]bool {
+		for _, ce := range dominatingConds(b) {
+			x, nonNilOnTrue, ok := nilTest(ce.Cond)
+			if !ok || ce.Val == nonNilOnTrue {
+				continue
+			}
+			if common, isH := helperNil[resolve(x)]; isH {
+				for k := range common {
+					cl[k] = true
+				}
+			}
+		}
+		return cl
+	}
 	for _, ret := range returnsOf(f) {
-		n++
-		cl := classOf(ret.Block())
-		key := fmt.Sprintf("classify@%s[ret#%d]", f.Name(), n)
 		ev := ret.Results[1]
+		if hc, cal, pbuf := helperOf(ev); hc != nil {
+			base := classOf(ret.Block())
+			for _, r2 := range returnsOf(cal) {
+				if isNilConst(r2.Results[0]) {
+					continue
+				}
+				cl := classOfBuf(r2.Block(), pbuf)
+				for k := range base {
+					cl[k] = true
+				}
+				exits = append(exits, exit{r2, r2.Results[0], cl})
+			}
+			continue
+		}
+		exits = append(exits, exit{ret, ev, withHelperNil(ret.Block(), classOf(ret.Block()))})
+	}
+	isHelperBuf := func(v ssa.Value) bool {
+		p, ok := v.(*ssa.Parameter)
+		if !ok {
+			return false
+		}
+		for hc := range helperNil {
+			_, cal, pbuf := helperOf(hc)
+			if cal == p.Parent() && pbuf == ssa.Value(p) {
+				return true
+			}
+		}
+		return false
+	}
+	n := 0
+	for _, ex := range exits {
+		ret := ex.ret
+		n++
+		cl := ex.cl
+		key := fmt.Sprintf("classify@%s[ret#%d]", ret.Parent().Name(), n)
+		ev := ex.ev
 		switch {
 		case cl["readerr"]:
 			a.check(derivesFrom(ev, rerr, 0) && !derivesFrom(ev, sentinel, 0), rule, key, w.posOf(ret), "transport failure wrapped as is", "a failed ReadPacket is not reported with its own error (lost connection reported as something else)")
 		case cl["PacketEOF"]:
 			a.check(derivesFrom(ev, sentinel, 0), rule, key, w.posOf(ret), "EOF packet -> EOF sentinel", "an EOF packet does not produce the EOF sentinel")
 		case cl["PacketERR"]:
-			a.check(hep != nil && derivesFrom(ev, hep, 0) && !derivesFrom(ev, sentinel, 0) && len(hep.Common().Args) == 1 && hep.Common().Args[0] == buf, rule, key, w.posOf(ret),
+			a.check(hep != nil && derivesFrom(ev, hep, 0) && !derivesFrom(ev, sentinel, 0) && len(hep.Common().Args) == 1 && (hep.Common().Args[0] == buf || isHelperBuf(hep.Common().Args[0])), rule, key, w.posOf(ret),
 				"master error packet decoded by HandleErrorPacket(buf) and wrapped", "a master error packet is not reported with the master's code and message (or is reported as EOF)")
 		case isNilConst(ev):
 			a.check(cl["readok"] && cl["!PacketEOF"] && cl["!PacketERR"], rule, key, w.posOf(ret), "event returned only for packets that are neither EOF nor ERR", "a packet is treated as an event without excluding EOF and ERR packets")
@@ -498,6 +607,12 @@ func c06R4(a *A, r *Roles) {
 				if *op == ssa.Value(sentinel) {
 					m++
 					ok := fn == r.ErrorM || errPrivate[fn] || fn.Name() == "init" || (fn == f && classOf(in.Block())["PacketEOF"])
+					// in a classification helper, under its own EOF test of the packet
+					for hc := range helperNil {
+						if _, cal, pbuf := helperOf(hc); cal == fn && classOfBuf(in.Block(), pbuf)["PacketEOF"] {
+							ok = true
+						}
+					}
 					a.check(ok, rule, fmt.Sprintf("sentinel-use@%s#%d", fn.Name(), m), w.posOf(in), "sentinel used by the EOF classification / the filter", "the EOF sentinel is produced or compared somewhere else: another ending can masquerade as the master's EOF")
 				}
 			}
